@@ -325,8 +325,32 @@ def run(tier, seed):
         meta[sc.name] = (-1, j, [("gen/conftest.py", files["gen/conftest.py"], True, "open"), ("gen/test_g.py", files["gen/test_g.py"], True, "open")],
                          exp, sc.meta["config"], [])
         scs.append(sc)
+    # (fixed) a name the document binds at module level BELOW the function that uses it (a helper def, a constant, an
+    # import) is that module-level name: nothing is published for it - and a warning published while the binding was
+    # missing is cleared by the change that appends it
+    conf = "import pytest\n\n@pytest.fixture\ndef made():\n    return 1\n"
+    use = "def test_g():\n    made()\n"
+    for j, tail in enumerate(["\ndef made():\n    return 2\n", "\nmade = 3\n", "\nfrom os import path as made\n", "\nclass made:\n    pass\n"]):
+        sc = stdio.StdioCase("z%d" % j, {"gen/conftest.py": conf, "gen/test_g.py": use + tail})
+        sc.open("gen/conftest.py"); sc.open("gen/test_g.py")
+        sc.change("gen/test_g.py", use)
+        sc.change("gen/test_g.py", use + tail)
+        sc.meta["config"] = "module-level binding below the use: %r" % tail.strip()
+        sc.meta["expect_clean"] = [1, 3]
+        meta[sc.name] = (-1, j, [("gen/conftest.py", conf, True, "open"), ("gen/test_g.py", use + tail, True, "open"),
+                                 ("gen/test_g.py", use, True, "change"), ("gen/test_g.py", use + tail, True, "change")], None, sc.meta["config"], [])
+        scs.append(sc)
     res, mcases, msp = stdio.run_all(r, scs, workers=12)
     for (sc, i, step, a, m, k) in res:
+        if sc.name.startswith("z") and not a.startswith(("DIED", "HUNG")):
+            pub = a[len("NO-PUBLISH "):] if a.startswith("NO-PUBLISH ") else a
+            und = [x for x in parse_diag(pub) if x[0] == "undeclared-fixture"]
+            want_clean = i in sc.meta["expect_clean"]
+            if i >= 1 and bool(und) == want_clean:
+                msg = (f"stdio case {sc.name} ({sc.meta['config']}), step {i} ({step[0]} of {step[1]}): "
+                       + (f"an undeclared-fixture warning is published for a name the latest text binds at module level: {[x[4] for x in und]}"
+                          if want_clean else "no undeclared-fixture warning although the latest text has no binding for the name"))
+                v.violation(f"{sc.name}-{i}-below", msg, f"# {msg}\n" + mcases.replay_text(sc.name))
         if sc.name.startswith("y") and not a.startswith(("DIED", "HUNG", "NO-PUBLISH")):
             off = [x[0] for x in parse_diag(a) if x[0] in sc.disabled]
             if off or not sc.disabled:
